@@ -8,7 +8,6 @@ from harness import core
 ID = 'C28'
 TITLE = 'Upserts follow their specification'
 PROPS = ['Props/C28']
-DISABLED = True
 RULE = ('each case: a fresh table T(A Text, B Int, C Text, D Int, F formula) with 0-6 rows (duplicate and missing keys, '
         'gaps in row ids) and one BulkAddOrUpdateRecord/AddOrUpdateRecord call through apply_user_actions: 0-3 require '
         'columns out of A,B,C,F,id (rarely an unknown one), 0-2 value columns (rarely a formula/unknown/id column), 0-4 '
@@ -398,7 +397,7 @@ def exhaustive_cases():
 
 
 def cases(ctx):
-  out = [gen_case(ctx.rng) for _ in range(ctx.n(500, 8000))]
+  out = [gen_case(ctx.rng) for _ in range(ctx.n(400, 6000))]
   if ctx.tier == 'thorough':
     out.extend(exhaustive_cases())
     ctx.extra['exhaustive'] = True
